@@ -13,7 +13,7 @@ pub mod verif;
 pub fn build(in_dir: &Path, out_dir: &Path, pointer_size: usize) -> anyhow::Result<()> {
     let mut semantic_state = semantic::SemanticState::new(pointer_size);
 
-    for path in find_pyxis_files(in_dir) {
+    for path in find_pyxis_files(in_dir)? {
         semantic_state.add_file(Path::new(&in_dir), &path)?;
     }
 
@@ -31,18 +31,27 @@ pub fn build(in_dir: &Path, out_dir: &Path, pointer_size: usize) -> anyhow::Resu
 ///
 /// Symbolic links to directories are followed, but not back into a directory that is
 /// already being walked: a link cycle would otherwise never end.
-fn find_pyxis_files(dir: &Path) -> Vec<std::path::PathBuf> {
-    fn walk(dir: &Path, ancestors: &mut Vec<std::path::PathBuf>, found: &mut Vec<std::path::PathBuf>) {
-        let Ok(canonical_dir) = dir.canonicalize() else {
-            return;
-        };
+///
+/// A directory that cannot be read is an error: the modules in it would otherwise be
+/// missing from the build without a word.
+fn find_pyxis_files(dir: &Path) -> anyhow::Result<Vec<std::path::PathBuf>> {
+    use anyhow::Context;
+
+    fn walk(
+        dir: &Path,
+        ancestors: &mut Vec<std::path::PathBuf>,
+        found: &mut Vec<std::path::PathBuf>,
+    ) -> anyhow::Result<()> {
+        let unreadable = || format!("failed to read the directory {}", dir.display());
+        let canonical_dir = dir.canonicalize().with_context(unreadable)?;
         if ancestors.contains(&canonical_dir) {
-            return;
+            return Ok(());
         }
-        let Ok(entries) = std::fs::read_dir(dir) else {
-            return;
-        };
-        let mut entries: Vec<_> = entries.filter_map(Result::ok).map(|e| e.path()).collect();
+        let mut entries = std::fs::read_dir(dir)
+            .with_context(unreadable)?
+            .map(|entry| entry.map(|e| e.path()))
+            .collect::<Result<Vec<_>, _>>()
+            .with_context(unreadable)?;
         entries.sort();
 
         ancestors.push(canonical_dir);
@@ -50,16 +59,25 @@ fn find_pyxis_files(dir: &Path) -> Vec<std::path::PathBuf> {
             if path.extension().is_some_and(|e| e == "pyxis") {
                 found.push(path.clone());
             }
-            if path.is_dir() {
-                walk(&path, ancestors, found);
+            let is_dir = match std::fs::metadata(&path) {
+                Ok(metadata) => metadata.is_dir(),
+                // a link that leads nowhere
+                Err(error) if error.kind() == std::io::ErrorKind::NotFound => false,
+                Err(error) => {
+                    return Err(error).with_context(|| format!("failed to look at {}", path.display()))
+                }
+            };
+            if is_dir {
+                walk(&path, ancestors, found)?;
             }
         }
         ancestors.pop();
+        Ok(())
     }
 
     let mut found = vec![];
-    walk(dir, &mut vec![], &mut found);
-    found
+    walk(dir, &mut vec![], &mut found)?;
+    Ok(found)
 }
 
 pub fn build_script(out_dir: Option<&Path>) -> anyhow::Result<()> {
